@@ -3,6 +3,7 @@ package goat
 import (
 	"context"
 	"fmt"
+	"math"
 	"reflect"
 	"strconv"
 	"strings"
@@ -624,8 +625,16 @@ func parseGrpcTimeout(timeout string) (time.Duration, bool) {
 		return 0, false
 	}
 	suffix := timeout[len(timeout)-1]
+	digits := timeout[:len(timeout)-1]
 
-	val, err := strconv.ParseInt(timeout[:len(timeout)-1], 10, 64)
+	// The wire format only admits unsigned decimal digits before the unit.
+	for i := 0; i < len(digits); i++ {
+		if digits[i] < '0' || digits[i] > '9' {
+			return 0, false
+		}
+	}
+
+	val, err := strconv.ParseInt(digits, 10, 64)
 	if err != nil {
 		return 0, false
 	}
@@ -650,6 +659,11 @@ func parseGrpcTimeout(timeout string) (time.Duration, bool) {
 	unit := getUnit(suffix)
 	if unit == 0 {
 		return 0, false
+	}
+
+	// Saturate rather than wrap around to a short or negative duration.
+	if val > math.MaxInt64/int64(unit) {
+		return time.Duration(math.MaxInt64), true
 	}
 
 	return time.Duration(val) * unit, true
